@@ -106,6 +106,8 @@ def run_for(pid, root=None, jobs=None):
             res = pool.map(_one, [(m, root) for m in vs])
     from selftest import generic
     res = list(res) + generic.run(pid, root=root)
+    from selftest import filerefs
+    res = list(res) + filerefs.run(pid, root=root)
     summ = {}
     for n, st, msg in res:
         summ[st] = summ.get(st, 0) + 1
